@@ -325,6 +325,10 @@ def run(ctx):
     from ..smimpl import index as _index
     rule_consumed_count(ctx, _index(), rid="R01.9")
 
+    # ------------------------------------------------------------------ R01.10 (shared with C02 R02.6)
+    from .c02 import rule_decoder_fast_path
+    rule_decoder_fast_path(ctx, mir, rid="R01.10")
+
     ctx.not_decided += ["bytes of captured text surviving decode/encode (stated exception of the property)", "arithmetic of Arena::shift / init_with (memory module unit tests)"]
     return ("Structural conditions of 'lexemes and raw gaps tile every chunk exactly once': construction sites and the five writers of "
             "Lexer.lexeme_start, EOF leaves of all %d automaton states, commit order and flush ordering on every CFG path of the dispatcher / "
